@@ -80,7 +80,16 @@ Definition xinsert (x : xs) (pos : Z) (data : list Z) : res (option xs) :=
       end
     end.
 
-Inductive xop := XCat (d : list Z) | XUnshift (d : list Z) | XShift (n : Z) | XPop (n : Z) | XInsert (pos : Z) (d : list Z).
+(* iwxstr_clone: ret->asize = xstr->asize; ret->ptr = malloc(xstr->asize) (fresh, uninitialised); memcpy(size); ptr[size] = 0.
+   The clone replaces the original in the histories (the original is destroyed). *)
+Definition xclone (x : xs) : res xs :=
+  let b := repeat None (Z.to_nat (asize x)) in
+  match (if 0 <? x_size x then match slice (x_buf x) 0 (x_size x) with None => None | Some s => blit b 0 s end else Some b) with
+  | None => Oob 0
+  | Some b1 => match wro b1 (x_size x) 0 with None => Oob (x_size x) | Some b2 => Ok {| x_buf := b2; x_size := x_size x |} end
+  end.
+
+Inductive xop := XCat (d : list Z) | XUnshift (d : list Z) | XShift (n : Z) | XPop (n : Z) | XInsert (pos : Z) (d : list Z) | XClone.
 Definition xapply (x : xs) (op : xop) : res xs :=
   match op with
   | XCat d => xcat x d
@@ -88,6 +97,7 @@ Definition xapply (x : xs) (op : xop) : res xs :=
   | XShift n => xshift x n
   | XPop n => xpop x n
   | XInsert pos d => match xinsert x pos d with Ok (Some x') => Ok x' | Ok None => Ok x | Oob i => Oob i | Fuel => Fuel end
+  | XClone => xclone x
   end.
 Fixpoint xrun (x : xs) (ops : list xop) : res xs :=
   match ops with [] => Ok x | op :: r => match xapply x op with Ok x' => xrun x' r | e => e end end.
